@@ -227,8 +227,51 @@ def directed_copies(r, gene):
     return r.choice(cands) if cands else None
 
 
+def overlap_gene(r):
+    """a generated database with two extra alleles: a 3-base core deletion in an exon and a core SNP at its middle base
+    (catalogues do contain such pairs); returns the gene description with the allele names, or None"""
+    import yaml
+    for _ in range(20):
+        y = gen_gene.gen_gene(r, scale=8, pseudogene=True, deletion=True)
+        doc = yaml.safe_load(y)
+        seq = doc["reference"]["seq"]
+        used = sorted(m[0] for a in doc["alleles"].values() for m in a["mutations"] if isinstance(m[0], int))
+        exons = [e for e in doc["reference"]["exons"] if e[1] - e[0] > 60]
+        if not exons:
+            continue
+        e = r.choice(exons)
+        cand = [p for p in range(e[0] + 25, e[1] - 28) if all(abs(p - u) > 25 for u in used)]
+        if not cand:
+            continue
+        p = r.choice(cand)
+        ref = seq[p - 1:p + 2]
+        if ref[0] == seq[p - 2] or ref[2] == seq[p + 2] or len(set(ref)) == 1:
+            continue   # keep the deletion unshiftable
+        nums = [int(k.split("*")[1].split(".")[0]) for k in doc["alleles"]]
+        nd, ns = max(nums) + 1, max(nums) + 2
+        name = doc["name"]
+        doc["alleles"][f"{name}*{nd}.001"] = {"mutations": [[p, "del" + ref, "-", "functional"]]}
+        alt = r.choice([c for c in "ACGT" if c != ref[1]])
+        doc["alleles"][f"{name}*{ns}.001"] = {"mutations": [[p + 1, f"{ref[1]}>{alt}", "-", "functional"]]}
+        gd = {"kind": "generated", "genome": r.choice(["hg19", "hg38"]), "yaml": yaml.safe_dump(doc, sort_keys=False, default_flow_style=None),
+              "overlap": [str(nd), str(ns)]}
+        try:
+            g, _ = instances.load_gene(gd)
+        except Exception:
+            continue
+        if str(nd) in g.alleles and str(ns) in g.alleles and consistent(g):
+            return gd
+    return None
+
+
 def make_desc(r, gdesc):
     gene, gid = instances.load_gene(gdesc)
+    if gdesc.get("overlap"):
+        dl, sn = gdesc["overlap"]
+        one = ("1", sorted(gene.alleles["1"].minors)[0])
+        copies = r.choice([[(dl, dl + ".001"), (dl, dl + ".001"), (sn, sn + ".001")], [one, (dl, dl + ".001"), (sn, sn + ".001"), (dl, dl + ".001")]])
+        copies = [(a, sorted(gene.alleles[a].minors)[0]) for a, _ in copies]
+        return {"gene": gdesc, "copies": [list(c) for c in copies], "shape": "snp_in_deletion", "read_len": r.choice([75, 100, 150]), "depth": r.choice([20, 30])}
     picked = directed_copies(r, gene) if r.random() < 0.35 else None
     shape, copies = picked if picked else pick_copies(r, gene)
     return {"gene": gdesc, "copies": [list(c) for c in copies], "shape": shape, "read_len": r.choice([50, 75, 100, 150, 250]), "depth": r.choice([20, 24, 30, 40])}
@@ -332,7 +375,12 @@ def run_desc(desc, d, k):
         n = len(m[1]) - 3
         return gene[m[0] - 1] == gene[m[0] + n - 1]
     shifted_deletion = any(shiftable(m) for mj, mi in copies for m in sim.copy_variants(gene, mj, mi))
-    reqs = [] if (silent_at_core_site or shifted_deletion) else premise_requests(gene, gdesc, copies, planted_struct, stage_calls)
+    # a planted multi-base deletion that covers the site of another catalogued variant: the model counts its carriers as
+    # reference copies at that site, the reads show deleted bases there
+    sites = {p for (p, o) in gene.mutations}
+    deletion_over_site = any(m[1].startswith("del") and any((m[0] + i) in sites for i in range(1, len(m[1].split("ins")[0]) - 3))
+                             for mj, mi in copies for m in sim.copy_variants(gene, mj, mi))
+    reqs = [] if (silent_at_core_site or shifted_deletion or deletion_over_site) else premise_requests(gene, gdesc, copies, planted_struct, stage_calls)
     return inp, why, {"shape": shape, "cn_optimal": planted_cn_optimal, "n_solutions": len(sols), "err": err, "close_indels": close, "reqs": reqs, "silent_at_core_site": silent_at_core_site, "shifted_deletion": shifted_deletion}
 
 
@@ -340,6 +388,7 @@ def tie(ctx):
     r = lib.rng("c01")
     quick = ctx["tier"] == "quick"
     pool = [{"kind": "generated", "genome": r.choice(["hg19", "hg38"]), "yaml": gen_gene.gen_gene(r, scale=r.choice([1, 4, 8]))} for _ in range(24 if quick else 160)]
+    pool += [g for g in (overlap_gene(r) for _ in range(3 if quick else 12)) if g]
     if not quick:
         pool += [{"kind": "shipped", "name": nme, "genome": r.choice(["hg19", "hg38"])} for nme in THOROUGH_SHIPPED]
     pool = [g for g in pool if consistent(instances.load_gene(g)[0])]
